@@ -6,6 +6,7 @@ import Thanos.Model.CachingBucket
 import Thanos.Model.CachingBucketOps
 import Thanos.Model.IndexHeader
 import Thanos.Model.LazyReader
+import Thanos.Model.ReaderPool
 /-
   Line-protocol driver of the `index` family (C11 C12 C13 C14 C16).
   One request per line, one answer per line; every line is self-contained.
@@ -67,6 +68,13 @@ import Thanos.Model.LazyReader
         item := q (a Reader method) | u (unloadIfIdleSince(0)) | b (unloadIfIdleSince: not idle) | p (isIdleSince)
       -> <result>(,<result>)* loads=<n> unloads=<n>
          result := ok | err | unloaded | noop | notidle | p0 | p1
+    lz.seqf <item>(,<item>)*    as lz.seq; further items: x (from now on NewBinaryReader fails: the header file is
+        gone and the bucket is down) | h (the bucket is back)
+      -> <result>(,<result>)* loads=<n> failed=<n> unloads=<n>      result also: lerr (the load error)
+    lz.pool <0|1> <op>(,<op>)*  one ReaderPool (1 = it sweeps idle readers), readers numbered in creation order
+        op := n (NewBinaryReader) | u<i> (a Reader method of reader i) | a<i> (reader i not used within the
+              idle timeout) | c<i> (Close of reader i) | s (closeIdleReaders)
+      -> per op <tracked bits>/<loaded bits> (one bit per reader, - if none), then unloads=<n>
     lz.sched <kinds> <schedule>   kinds := [qubp]+ (one thread each), schedule := <tid>(,<tid>)*
       -> bad=<0|1> loads=<n> unloads=<n> <log>     (model only: used by the corpus to replay interleavings)
 -/
@@ -558,6 +566,7 @@ open Thanos.LazyReader
 def showEvent : Event → String
   | .ok _ => "ok"
   | .errUnloaded => "err"
+  | .loadErr => "lerr"
   | .unloaded _ => "unloaded"
   | .noop => "noop"
   | .notIdle => "notidle"
@@ -582,6 +591,37 @@ def handleC16 : List String → Option String
     let s0 := init [.reader, .unloader true, .unloader false, .probe]
     let s := tids.foldl (fun s i => call true false 16 s i) s0
     pure s!"{joinWith "," (s.log.map fun e => showEvent e.2)} loads={s.loads} unloads={s.unloads}"
+  | ["lz.seqf", script] => do
+    -- as lz.seq, in an environment that can break: x = from now on NewBinaryReader fails, h = it works again
+    let items ← (listOf ',' script).mapM fun it =>
+      match it with
+      | "x" => some (Sum.inr true)
+      | "h" => some (Sum.inr false)
+      | _ => (tidOf? it).map Sum.inl
+    let s0 := init [.reader, .unloader true, .unloader false, .probe]
+    let s := items.foldl (fun s it =>
+      match it with
+      | .inl i => call true false 16 s i
+      | .inr true => { s with failAt := [s.loads] }
+      | .inr false => { s with failAt := [] }) s0
+    pure s!"{joinWith "," (s.log.map fun e => showEvent e.2)} loads={s.loads} failed={s.loadFails} unloads={s.unloads}"
+  | ["lz.pool", tracking, script] => do
+    let tr ← if tracking = "1" then some true else if tracking = "0" then some false else none
+    let ops ← (listOf ',' script).mapM fun it =>
+      match it.toList with
+      | ['n'] => some ReaderPool.Op.new
+      | ['s'] => some ReaderPool.Op.sweep
+      | 'u' :: r => (parseNat? (String.ofList r)).map ReaderPool.Op.use
+      | 'a' :: r => (parseNat? (String.ofList r)).map ReaderPool.Op.age
+      | 'c' :: r => (parseNat? (String.ofList r)).map ReaderPool.Op.close
+      | _ => none
+    let bits (l : List Bool) : String := if l.isEmpty then "-" else String.ofList (l.map fun b => if b then '1' else '0')
+    let snap (p : ReaderPool.Pool) : String :=
+      s!"{bits ((List.range p.readers.length).map fun i => p.tracked.contains i)}/{bits (p.readers.map (·.loaded))}"
+    let (p, out) := ops.foldl (fun (acc : ReaderPool.Pool × List String) o =>
+      let p' := ReaderPool.step acc.1 o
+      (p', acc.2 ++ [snap p'])) (ReaderPool.init tr, [])
+    pure s!"{joinWith "," out} unloads={p.unloads}"
   | "lz.sched" :: kinds :: sched :: _ => do
     let ks ← kinds.toList.mapM kindOf?
     let sch ← parseNats? ',' sched
